@@ -448,12 +448,17 @@ impl Scenario for C02 {
         }
     }
 
+    fn sweep_targets(&self, ctx: &Ctx) -> (Vec<(Address, &'static str, &'static [&'static str])>, Vec<Address>) {
+        (vec![(ctx.gw.clone(), "/repo/contracts/axelar-gateway/src", &axmc::inventory::GATEWAY_KNOWN[..])], vec![ctx.gw.clone()])
+    }
+
     fn must_succeed_kinds(&self) -> Vec<&'static str> {
         vec!["approve", "validate"]
     }
 }
 
 fn main() {
+    axmc::inventory::set_strings(&[K0.0, K0.1]);
     main_for(|tier| {
         let s = if tier == "quick" {
             C02 { keys: vec![K0, K1, K2], max_adv: 1, bulk: 100 }
